@@ -79,8 +79,10 @@ class AbsPDF:
     def temp_params(self, var):
         params = self.get_params()
         self.set_params(var)
-        yield var
-        self.set_params(params)
+        try:
+            yield var
+        finally:
+            self.set_params(params)
 
     @contextlib.contextmanager
     def mask_params(self, var):
@@ -157,11 +159,13 @@ class BaseAmplitudeModel(AbsPDF):
             combine = [[i] for i in range(len(self.decay_group.chains))]
         o_used_chains = self.decay_group.chains_idx
         weights = []
-        for i in combine:
-            self.decay_group.set_used_chains(i)
-            weight = self.pdf(data)
-            weights.append(weight)
-        self.decay_group.set_used_chains(o_used_chains)
+        try:
+            for i in combine:
+                self.decay_group.set_used_chains(i)
+                weight = self.pdf(data)
+                weights.append(weight)
+        finally:
+            self.decay_group.set_used_chains(o_used_chains)
         return weights
 
     def partial_weight_interference(self, data):
@@ -191,9 +195,11 @@ class BaseAmplitudeModel(AbsPDF):
         old_mask = [getattr(i, "mask_factor", False) for i in mask_part]
         for i in mask_part:
             i.mask_factor = True
-        yield
-        for i, j in zip(mask_part, old_mask):
-            i.mask_factor = j
+        try:
+            yield
+        finally:
+            for i, j in zip(mask_part, old_mask):
+                i.mask_factor = j
 
 
 @register_amp_model("default")
